@@ -62,6 +62,32 @@ func Float64ListToDecimalIntList(dst []int64, src []float64) ([]int64, int16, er
 		}
 		decimals[i] = scaled
 	}
+	// The decoder rebuilds every value with float64 arithmetic (float64(v) scaled by
+	// powers of ten), which is exact only while the mantissa fits 53 bits and the
+	// power of ten is representable. Refuse anything that would not come back
+	// equal (17-digit mantissas, large scales) so that the caller falls back to its
+	// lossless encoding.
+	var divisorsBuf [4]float64
+	var divisors []float64
+	scale := 1.0
+	if minExp >= 0 {
+		scale = math.Pow10(int(minExp))
+	} else {
+		divisors = computeDivisors(int(-minExp), divisorsBuf[:0])
+	}
+	for i, v := range decimals {
+		restored := float64(v)
+		if minExp >= 0 {
+			restored *= scale
+		} else {
+			for _, d := range divisors {
+				restored /= d
+			}
+		}
+		if restored != src[i] {
+			return nil, 0, errCannotEncodeLossless
+		}
+	}
 	return decimals, minExp, nil
 }
 
